@@ -1382,11 +1382,94 @@ fn admitting_budget(r: &mut Rng, overhead: usize, size: usize) -> usize {
     }
 }
 
+/// An upload whose blocks alternate with the client fetching the rest of an OLDER block-wise reply
+/// on the same key (POST /r answered block-wise earlier, read only up to block 0): the download's
+/// blocks - its last one included - go by while the upload is open; the upload must still arrive whole.
+fn upload_while_old_reply_is_fetched(rep: &mut Report, r: &mut Rng) {
+    for szx in [0u8, 1, 2] {
+        for fetch_at in [1usize, 2, 3] {
+            rep.eval();
+            let s = szx_size(szx);
+            let nblocks = 4 + r.usize_below(3);
+            let body = body_bytes(r.next_u64(), s * (nblocks - 1) + 1 + r.usize_below(s));
+            let old_reply = body_bytes(r.next_u64() ^ 7, 100 + r.usize_below(60));
+            let code = *r.pick(&[2u8, 5]);
+            let witness = format!("method {:#04x} on one key: an earlier request was answered block-wise ({} bytes, block 0 read), then an upload of {} blocks of {} bytes during which, after block {}, the rest of the old reply is fetched", code, old_reply.len(), nblocks, s, fetch_at);
+            set_case_str(&witness);
+            let mut server = Server::new(200, LONG);
+            let mut mid = 0u16;
+            let mut next = |q: &mut ReqSpec| {
+                mid = mid.wrapping_add(1);
+                q.mid = mid;
+                q.token = vec![mid as u8, 0x42];
+            };
+            // 1. the earlier exchange: small request, large reply, 16-byte blocks
+            let old = old_reply.clone();
+            let mut old_app = move |_r: &coap_lite::CoapRequest<CEp>| AppReply::content(old.clone());
+            let mut q = ReqSpec::new(code, &["r"]);
+            next(&mut q);
+            q.block2 = Some((0, false, 0));
+            let e = server.exchange(&q.bytes(), 1, &mut old_app);
+            if e.block_of(CoapOption::Block2).map(|b| b.more) != Some(true) {
+                rep.violation("upload-while-fetching:setup", e.summary(), witness);
+                continue;
+            }
+            // 2. the upload, with the fetch in the middle
+            let seen: std::rc::Rc<std::cell::RefCell<Vec<Vec<u8>>>> = Default::default();
+            let seen2 = seen.clone();
+            let mut up_app = move |rq: &coap_lite::CoapRequest<CEp>| {
+                seen2.borrow_mut().push(rq.message.payload.clone());
+                AppReply { code: 0x44, options: vec![], payload: vec![] }
+            };
+            let mut failed = false;
+            for i in 0..nblocks {
+                let last = i + 1 == nblocks;
+                let mut u = ReqSpec::new(code, &["r"]);
+                next(&mut u);
+                u.block1 = Some((i as u32, !last, szx));
+                u.payload = body[i * s..((i + 1) * s).min(body.len())].to_vec();
+                let e = server.exchange(&u.bytes(), 1, &mut up_app);
+                if !last && (e.app_called || e.reply_code() != Some(0x5f)) {
+                    rep.violation("upload-while-fetching:non-final-block-not-continued", format!("block {}: {}", i, e.summary()), witness.clone());
+                    failed = true;
+                    break;
+                }
+                if i + 1 == fetch_at {
+                    // fetch blocks 1.. of the old reply until its last block
+                    for n in 1..40u32 {
+                        let mut f = ReqSpec::new(code, &["r"]);
+                        next(&mut f);
+                        f.block2 = Some((n, false, 0));
+                        let e = server.exchange(&f.bytes(), 1, &mut up_app);
+                        match e.block_of(CoapOption::Block2) {
+                            Some(b) if b.more => {}
+                            _ => break,
+                        }
+                    }
+                }
+            }
+            if failed {
+                continue;
+            }
+            let delivered = seen.borrow();
+            let bodies: Vec<&Vec<u8>> = delivered.iter().filter(|p| p.len() >= s).collect();
+            if bodies.len() != 1 || bodies[0] != &body {
+                rep.violation("upload-while-fetching:delivered-body-differs", format!("the application received {} bodies of lengths {:?}; the client uploaded {} bytes{}", delivered.len(), delivered.iter().map(|p| p.len()).collect::<Vec<_>>(), body.len(), bodies.first().map(|b| format!(", first difference at {:?}", b.iter().zip(body.iter()).position(|(a, c)| a != c))).unwrap_or_default()), witness);
+            } else {
+                rep.count("uploads_held_while_an_old_reply_was_fetched");
+            }
+        }
+    }
+}
+
 pub fn run_c09(ctx: &mut Ctx) {
     let mut r = ctx.rng(9);
     let (level, budget, shard, nshards) = (ctx.level, ctx.budget, ctx.shard, ctx.nshards);
     let rep = &mut ctx.rep;
     let mut ids = Ids { mid: 0x2000, tok: 11 };
+    if shard == 0 {
+        upload_while_old_reply_is_fetched(rep, &mut r);
+    }
     // lengths within +-2 of block multiples, every szx, with and without abandoned prefix
     let mut idx = 0u64;
     let szxs: &[u8] = if level == 0 { &[0, 1] } else { &[0, 1, 2, 3, 4, 5, 6] };
